@@ -584,8 +584,20 @@ func init() {
 					if bi, ok := lc.Call.Value.(*ssa.Builtin); !ok || bi.Name() != "len" || !sameList(lc.Call.Args[0], ap.Call.Args[0]) {
 						continue
 					}
-					rp := accessPath(rhs)
-					if strings.Contains(rp, "MaxEjectionPercent") && strings.Contains(rp, "builtin len(core/outlier.getNodeBreakersOfResource(") && strings.HasPrefix(rp, "int(") {
+					// every alternative of the bound is the cap itself or 0 (a defensive "no nodes" answer is below any cap)
+					okAll, some := true, false
+					for _, cs := range splitPhiCases(rhs, b.Block(), nil, 0) {
+						if k, isK := constInt(stripConv(cs.val)); isK && k == 0 {
+							continue
+						}
+						rp := accessPath(cs.val)
+						if strings.Contains(rp, "MaxEjectionPercent") && strings.Contains(rp, "builtin len(core/outlier.getNodeBreakersOfResource(") && strings.HasPrefix(rp, "int(") {
+							some = true
+						} else {
+							okAll = false
+						}
+					}
+					if okAll && some {
 						capped = true
 					}
 				}
